@@ -879,7 +879,7 @@ func c12RunChaos(p *c12Plan, schedSeed uint64, replay []simrt.Choice, lenient, k
 		body = append(body, peer.Done(0, 0, 0)...)
 		pr.SendPackets(peer.Packetise(body, peer.CutsBySize(len(body), p.BodySize), peer.BufResponse, m.Channel, true))
 	}
-	var setupErr string
+	var setupErr, chLErr string
 	connClosed := false
 	out := s.Run(func() {
 		conn, err := tds.NewConn(context.Background(), MkInfo(p.QueueSize, 5, false))
@@ -894,7 +894,7 @@ func c12RunChaos(p *c12Plan, schedSeed uint64, replay []simrt.Choice, lenient, k
 		}
 		chL, err := conn.NewChannel()
 		if err != nil {
-			setupErr = err.Error()
+			chLErr = err.Error()
 			return
 		}
 		chans := []*tds.Channel{ch0, chL}
@@ -963,13 +963,16 @@ func c12RunChaos(p *c12Plan, schedSeed uint64, replay []simrt.Choice, lenient, k
 	if out.Budget {
 		return v, out
 	}
+	if chLErr != "" {
+		v.Violate("newchannel-failed", "NewChannel failed although the server acknowledged the setup", "the first logical channel of the connection: NewChannel: %s", chLErr)
+	}
 	for _, c := range out.Crashes {
 		v.Violate("panic", "panic "+CrashSig(c), "task %s panicked: %s\n%s", c.Task, c.Value, c.Stack)
 	}
 	if out.Races > 0 {
 		v.Violate("race", "race", "the race detector reported %d data race(s) on this schedule (report in the worker's race log)", out.Races)
 	}
-	if len(out.Parked) > 0 {
+	if len(out.Parked) > 0 && chLErr == "" {
 		if connClosed {
 			v.Violate("reader-not-ended", "reader goroutine still running after Conn.Close", "every task has returned and the connection is closed; still parked: %v", out.Parked)
 		} else {
